@@ -101,8 +101,6 @@ def mapSet (k v : Bytes) : List KV → List KV
     | .eq => (k, v) :: r
     | .gt => (k', v') :: mapSet k v r
 
-def mapErase (k : Bytes) (m : List KV) : List KV := m.filter fun kv => kv.1 ≠ k
-
 /-- `MemDB.BatchGet`: `Len() == 0` → empty map; else every key that has an entry (tombstones included) -/
 def bufBatchLoop (buf : List KV) : List Bytes → List KV → List KV
   | [], m => m
@@ -130,78 +128,115 @@ def mergeInto : List KV → List KV → List KV
   | [], m => m
   | (k, v) :: r, m => mapSet k v (mergeInto r m)
 
-/-- `BufferBatchGetter.BatchGet` as the property demands it (and as the repaired code does it): the key list
-passed to the snapshot is computed against the COMPLETE buffer answer, the tombstones leave the result
-afterwards.  -/
+/-- `BufferBatchGetter.BatchGet` (batch_getter.go; `BufferSnapshotBatchGetter.BatchGet` has the same body):
+the key list for the snapshot is shrunk against the complete buffer answer, the tombstones leave the result
+afterwards, then the snapshot's answer is merged in. -/
 def batchGet (snap buf : List KV) (keys : List Bytes) : List KV :=
-  let bufferValues := bufBatchGet buf keys
-  if bufferValues.isEmpty then snapBatchGet snap keys else
-  let shrinkKeys := keys.filter fun k => (lookup bufferValues k).isNone
-  let bufferValues := bufferValues.filter fun kv => !kv.2.isEmpty
-  mergeInto (snapBatchGet snap shrinkKeys) bufferValues
+  let bufferValues := bufBatchGet buf keys                              -- b.buffer.BatchGet(ctx, keys)
+  if bufferValues.isEmpty then snapBatchGet snap keys else              -- len(bufferValues) == 0
+  let shrinkKeys := keys.filter fun k => (lookup bufferValues k).isNone -- for _, key := range keys { if !ok … }
+  let bufferValues := bufferValues.filter fun kv => !kv.2.isEmpty       -- for key, val := range bufferValues { delete }
+  mergeInto (snapBatchGet snap shrinkKeys) bufferValues                 -- for key, val := range storageValues
 
-/-- the loop of batch_getter.go as it stands at the pinned commit: the tombstone is deleted from
-`bufferValues` INSIDE the loop, so a second occurrence of the same key no longer finds it and the key goes to
-the snapshot after all -/
-def shrinkLoopAsIs : List Bytes → List KV → List Bytes → List KV × List Bytes
-  | [], m, sk => (m, sk)
-  | k :: ks, m, sk =>
-    match lookup m k with
-    | none => shrinkLoopAsIs ks m (sk ++ [k])
-    | some v => if v.isEmpty then shrinkLoopAsIs ks (mapErase k m) sk else shrinkLoopAsIs ks m sk
+/-! ### the abstract write buffer
 
-def batchGetAsIs (snap buf : List KV) (keys : List Bytes) : List KV :=
-  let bufferValues := bufBatchGet buf keys
-  if bufferValues.isEmpty then snapBatchGet snap keys else
-  let (bufferValues, shrinkKeys) := shrinkLoopAsIs keys bufferValues []
-  mergeInto (snapBatchGet snap shrinkKeys) bufferValues
+The content plus ONE stack of undo marks, newest first: a mark is a staging level (`Staging()`) or a checkpoint
+(`Checkpoint()`), and remembers the content at the moment it was set.  On the real buffers both kinds of mark
+are positions in the same value log (C08); the stack discipline below is what a log position can honour:
+* `Release` forgets the innermost staging mark, nothing else (the log is not touched);
+* `Cleanup` cuts the log back to the innermost staging mark: that mark and every newer one is gone;
+* `RevertToCheckpoint` cuts the log back to the checkpoint: every newer mark is gone, the checkpoint stays;
+  it is only meaningful while no staging level opened after the checkpoint is still open and the log has not
+  been cut below it — otherwise `revert` refuses (the harness then does not call the real code either). -/
 
-/-! ### the abstract write buffer -/
+structure Mark where
+  isStage : Bool
+  saved : List KV
+  deriving Repr, DecidableEq
 
 structure Buf where
   cur : List KV                  -- sorted; value `[]` = tombstone
-  stages : List (List KV)        -- the content saved by each live `Staging()`, innermost first
+  marks : List Mark              -- newest first
   deriving Repr, DecidableEq
 
 def Buf.empty : Buf := ⟨[], []⟩
 
+def stageCount : List Mark → Nat
+  | [] => 0
+  | m :: r => (if m.isStage then 1 else 0) + stageCount r
+
+def cpCount : List Mark → Nat
+  | [] => 0
+  | m :: r => (if m.isStage then 0 else 1) + cpCount r
+
+/-- `len(stages)` -/
+def Buf.depth (b : Buf) : Nat := stageCount b.marks
+
 /-- `Staging()` returns the new depth as handle -/
-def Buf.staging (b : Buf) : Buf × Nat := (⟨b.cur, b.cur :: b.stages⟩, b.stages.length + 1)
+def Buf.staging (b : Buf) : Buf × Nat := (⟨b.cur, ⟨true, b.cur⟩ :: b.marks⟩, b.depth + 1)
+
+/-- `Checkpoint()`; the harness numbers the valid checkpoints from the oldest -/
+def Buf.checkpoint (b : Buf) : Buf × Nat := (⟨b.cur, ⟨false, b.cur⟩ :: b.marks⟩, cpCount b.marks)
+
+def dropFirstStage : List Mark → List Mark
+  | [] => []
+  | m :: r => if m.isStage then r else m :: dropFirstStage r
+
+def cutAtStage : List Mark → Option (List KV × List Mark)
+  | [] => none
+  | m :: r => if m.isStage then some (m.saved, r) else cutAtStage r
+
+def cutAtCp (i : Nat) : List Mark → Option (List KV × List Mark)
+  | [] => none
+  | m :: r =>
+    if m.isStage then none
+    else if cpCount r = i then some (m.saved, m :: r)
+    else cutAtCp i r
+
+/-- `n` times `dropFirstStage` -/
+def dropStages : Nat → List Mark → List Mark
+  | 0, ms => ms
+  | n + 1, ms => dropStages n (dropFirstStage ms)
 
 /-- publish the innermost level: the writes stay, the undo boundary goes -/
-def Buf.releaseTop (b : Buf) : Buf := ⟨b.cur, b.stages.tail⟩
+def Buf.releaseTop (b : Buf) : Buf := ⟨b.cur, dropFirstStage b.marks⟩
 
 /-- discard the innermost level: back to the content saved by its `Staging()` -/
 def Buf.cleanupTop (b : Buf) : Buf :=
-  match b.stages with
-  | saved :: rest => ⟨saved, rest⟩
-  | [] => b
+  match cutAtStage b.marks with
+  | some (saved, rest) => ⟨saved, rest⟩
+  | none => b
 
 /-- `Release(h)`: 0 is the no-effect handle; any handle but the innermost panics (`none`) -/
 def Buf.release (h : Nat) (b : Buf) : Option Buf :=
   if h = 0 then some b
-  else if h ≠ b.stages.length then none
+  else if h ≠ b.depth then none
   else some b.releaseTop
 
 /-- `Cleanup(h)`: 0 and handles above the depth are ignored, handles below the depth panic (`none`) -/
 def Buf.cleanup (h : Nat) (b : Buf) : Option Buf :=
   if h = 0 then some b
-  else if h > b.stages.length then some b
-  else if h < b.stages.length then none
+  else if h > b.depth then some b
+  else if h < b.depth then none
   else some b.cleanupTop
 
+/-- `RevertToCheckpoint(cp)` for the `i`-th valid checkpoint; `none` = not a valid checkpoint right now -/
+def Buf.revert (i : Nat) (b : Buf) : Option Buf :=
+  match cutAtCp i b.marks with
+  | some (saved, marks) => some ⟨saved, marks⟩
+  | none => none
+
 def Buf.apply (b : Buf) : BOp → Buf
-  | .set k v => if v.isEmpty then b else ⟨mapSet k v b.cur, b.stages⟩     -- ErrCannotSetNilValue
-  | .del k => ⟨mapSet k [] b.cur, b.stages⟩
+  | .set k v => if v.isEmpty then b else ⟨mapSet k v b.cur, b.marks⟩     -- ErrCannotSetNilValue
+  | .del k => ⟨mapSet k [] b.cur, b.marks⟩
   | .staging => b.staging.1
-  | .release => b.releaseTop      -- = Release(innermost handle), see `release_innermost`
-  | .cleanup => b.cleanupTop      -- = Cleanup(innermost handle), see `cleanup_innermost`
+  | .checkpoint => b.checkpoint.1
+  | .release => b.releaseTop      -- = Release(innermost handle), see `innermost_handle`
+  | .cleanup => b.cleanupTop      -- = Cleanup(innermost handle)
+  | .revert i => match b.revert i with
+    | some b' => b'
+    | none => b                   -- refused: nothing happens
 
 def Buf.run (b : Buf) (ops : List BOp) : Buf := ops.foldl Buf.apply b
-
-/-- `Checkpoint()` / `RevertToCheckpoint(cp)` at the abstract level: a saved copy of the content.
-(On the real buffers a checkpoint is a position in the value log; see C08 and DESIGN §6 S10.) -/
-def Buf.checkpoint (b : Buf) : List KV := b.cur
-def Buf.revertTo (saved : List KV) (b : Buf) : Buf := ⟨saved, b.stages⟩
 
 end CGV.UnionIter
